@@ -217,8 +217,11 @@ type Exec struct {
 	Unattributed bool   // oracle-side copy used as a barrier in per-queue sequences (see execsByQueue)
 	QueueSeen    string // queue whose task carries exactly these contexts while the hook runs ("" = not identified)
 	HeadIdx      int    // position of that task in its queue (0 = head)
-	ParseErr     string
-	InputsSeen   map[string]int // size of each of the five files at start
+	// simulated time at which the task right behind this execution's task was queued, if that is a
+	// HookRun task of the same hook (0 = none)
+	NextSameHookQueuedAt time.Duration
+	ParseErr             string
+	InputsSeen           map[string]int // size of each of the five files at start
 }
 
 func canonJSON(v any) string {
@@ -593,6 +596,22 @@ func (o *OpSim) locateTask(x *Exec) {
 	}
 	if len(cands) == 1 {
 		x.QueueSeen, x.HeadIdx = cands[0].q, cands[0].idx
+		// what stands right behind this execution's task (for the C07 oracle M7)
+		if q := o.Op.TaskQueues.GetByName(x.QueueSeen); q != nil {
+			idx := 0
+			q.Iterate(func(t task.Task) {
+				defer func() { idx++ }()
+				if idx != x.HeadIdx+1 || t == nil || t.GetType() != task_metadata.HookRun {
+					return
+				}
+				if hm, ok := t.GetMetadata().(task_metadata.HookMetadata); ok && hm.HookName == x.Hook {
+					x.NextSameHookQueuedAt = t.GetQueuedAt().Sub(o.e.T0)
+					if x.NextSameHookQueuedAt <= 0 {
+						x.NextSameHookQueuedAt = 1
+					}
+				}
+			})
+		}
 	}
 }
 
